@@ -10,6 +10,13 @@ published stream format):
     constant at the boundary sizes; then the sd blob is read back from disk, loaded with the real loader,
     and the data blobs are decrypted in descriptor order with the real path (StreamDownloader.decrypt_blob
     -> AbstractBlob.decrypt -> decrypt_blob_bytes) and with the reference.
+    Documented options and entry points are dimensions too: old_sort in {False, True} (the sd blob that
+    exists on disk must be the one sd_hash names, in either key order; calculate_sd_hash /
+    calculate_old_sort_sd_hash must equal the reference hash of the respective serialisation),
+    blob_completed_callback set/unset, key=None / iv_generator=None separately, and after every clean publish:
+    make_sd_blob again (idempotent), make_sd_blob in the other key order (+ load of that blob),
+    StreamDescriptor.recover() with the published fields (restores the sd blob byte for byte) and with
+    another key (must not return a descriptor).
 (b) every tampering from the design's list of a valid 1-, 2- and 3-data-blob descriptor (built by the
     reference publisher and compared byte for byte with what the real publisher emits for the same input),
     written as a proper blob (named by the SHA-384 of the tampered bytes) and fed to the real loader
@@ -39,7 +46,10 @@ SCALED_M = 64
 
 PATTERNS = ('zero', 'counter', 'ff')
 EXTRA_PATTERNS = ('chunk-periodic', 'hashed')     # thorough only
-GENS = ('zero', 'counter', 'hashed')          # + 'default' (os.urandom seam) as a one-factor sweep
+GENS = ('zero', 'counter', 'hashed')
+# one-factor sweeps over the generated key / IV paths (os.urandom seam in the descriptor module replaced):
+# 'default' = key=None and iv_generator=None, 'default-key' = key=None + counter IVs, 'default-iv' = fixed key only
+DEFAULT_GENS = ('default', 'default-key', 'default-iv')
 
 # (c) alphabet: the design's ten symbols + newline ('$' matches before a trailing newline) + DEL (tallied)
 NAME_ALPHABET = ['a', '.', ' ', '/', '\\', '\x00', '\x1f', '\t', ':', '*', '\n', '\x7f']
@@ -114,7 +124,8 @@ def hashed_stream(seed, tag):
 def make_gen(name, seed):
     """-> (key or None, iv generator or None).  'zero': all-zero key and IVs (most degenerate);
     'counter': fixed key 00..0f, IVs 1,2,3,...; 'hashed': SHA-256 derived from VERIF_SEED;
-    'default': key/IV left to the code (os.urandom seam in the descriptor module replaced)."""
+    'default': key/IV left to the code (os.urandom seam in the descriptor module replaced); 'default-key' /
+    'default-iv': only the key / only the IVs left to the code."""
     if name == 'zero':
         def g():
             while True:
@@ -131,6 +142,10 @@ def make_gen(name, seed):
         return hashlib.sha256(f'key:{seed}'.encode()).digest()[:16], hashed_stream(seed, 'iv')
     if name == 'default':
         return None, None
+    if name == 'default-key':
+        return None, make_gen('counter', seed)[1]
+    if name == 'default-iv':
+        return bytes(range(16)), None
     raise ValueError(name)
 
 
@@ -192,6 +207,7 @@ def publish_case(case, scratch):
 
     M, size, pattern, gen, name, seed = (case['M'], case['size'], case['pattern'], case['gen'], case['name'],
                                          case.get('seed', 0))
+    old_sort, use_cb = bool(case.get('old_sort', False)), bool(case.get('cb', False))
     bound = M if M is not None else TWO_MIB
     if pattern == 'chunk-periodic':      # period = plaintext bytes per blob: every full chunk is the same text
         data = (bytes(range(1, 256)) * (bound // 255 + 1))[:bound - 1]
@@ -229,18 +245,25 @@ def publish_case(case, scratch):
         if kind == 'publish-raises':
             sig.update(cls)      # the input class matters only for a refusal to publish
         sig.update(extra)
-        problems.append((sig, f'{what} [M={bound} size={size} pattern={pattern} gen={gen} name={name!r}]'))
+        opts = (' old_sort=True' if old_sort else '') + (' blob_completed_callback set' if use_cb else '')
+        problems.append((sig, f'{what} [M={bound} size={size} pattern={pattern} gen={gen} name={name!r}{opts}]'))
+
+    completed = []
+
+    def on_completed(blob):
+        completed.append((blob.blob_hash, blob.get_is_verified(), os.path.isfile(os.path.join(blob_dir, blob.blob_hash))))
 
     loop = VLoop().activate()
     real_os = descmod.os
     try:
         with blob_size(M):
-            if gen == 'default':
+            if gen.startswith('default'):
                 descmod.os = _OsProxy(hashed_stream(seed, 'urandom'))
             try:
                 try:
-                    desc = loop.run(StreamDescriptor.create_stream(loop, blob_dir, file_path, key=key,
-                                                                   iv_generator=ivgen))
+                    desc = loop.run(StreamDescriptor.create_stream(
+                        loop, blob_dir, file_path, key=key, iv_generator=ivgen, old_sort=old_sort,
+                        blob_completed_callback=on_completed if use_cb else None))
                 except Exception as e:   # noqa - judged below
                     bad('publish-raises', f'create_stream raised {type(e).__name__}: '
                                           f'{str(e).replace(blob_dir, "<blob_dir>")[:60]}', exc=type(e).__name__)
@@ -252,8 +275,14 @@ def publish_case(case, scratch):
             obs['executor_jobs'] = loop._job_counter
             return inspect_published(dict(loop=loop, desc=desc, blob_dir=blob_dir, bound=bound, data=data, name=name,
                                           key=key, ivgen=ivgen, given_ivs=given_ivs, ref_chunks=ref_chunks,
-                                          problems=problems, obs=obs), bad)
+                                          problems=problems, obs=obs, old_sort=old_sort, use_cb=use_cb,
+                                          completed=completed), bad)
     except Exception as e:   # noqa
+        from vf.vloop import Deadlock, Horizon
+        if isinstance(e, (Deadlock, Horizon)):
+            bad('entry-point-never-completes', f"{obs.get('stage', 'reading the stream back')} never completed on the "
+                                               f"default schedule ({type(e).__name__})", entry=obs.get('stage', 'read-back'))
+            return problems, obs
         if not raised_inside_lbry(e):
             raise
         bad('descriptor-api-raises', f'{type(e).__name__} out of lbry code while reading the published stream back: '
@@ -283,9 +312,11 @@ def inspect_published(env, bad):
     from lbry.stream.downloader import StreamDownloader
     from lbry.stream.managed_stream import ManagedStream
     from lbry.blob.blob_file import BlobFile
+    from lbry.blob.blob_info import BlobInfo
     loop, desc, blob_dir, bound, data, name, key, ivgen, given_ivs, ref_chunks, problems, obs = (
         env[k] for k in ('loop', 'desc', 'blob_dir', 'bound', 'data', 'name', 'key', 'ivgen', 'given_ivs', 'ref_chunks',
                          'problems', 'obs'))
+    old_sort, use_cb, completed = env['old_sort'], env['use_cb'], env['completed']
     if loop.pop_exceptions():
         obs['loop_exceptions'] = True
 
@@ -317,8 +348,18 @@ def inspect_published(env, bad):
         bad('stream-hash', 'descriptor.stream_hash differs from the stream_hash inside the sd blob')
     if ref.stream_hash_of(decoded) != desc.stream_hash:
         bad('stream-hash', 'descriptor.stream_hash is not the reference hash of the sd blob content')
-    if desc.calculate_sd_hash() != sd_hash:
-        bad('sd-hash', 'calculate_sd_hash() differs from sd_hash')
+    # the two documented serialisations: the one that was asked for is the published blob, and both
+    # hash helpers commit to the reference serialisation of the same content in their own key order
+    api = {False: desc.calculate_sd_hash(), True: desc.calculate_old_sort_sd_hash()}
+    if sd_hash not in api.values():
+        bad('sd-hash', 'sd_hash is neither calculate_sd_hash() nor calculate_old_sort_sd_hash()')
+    elif api[old_sort] != sd_hash:      # commitments hold, only the requested key order was not used: not in the statement
+        obs.setdefault('tallies_early', []).append('requested_key_order_not_used_for_the_sd_blob')
+    for order in (False, True):
+        if api[order] != ref.sd_hash(ref.serialize(decoded, order)):
+            bad('sd-hash-helper', f"calculate_{'old_sort_' if order else ''}sd_hash() is not the SHA-384 of the "
+                                  f"{'historical' if order else 'sorted'}-order serialisation of the descriptor content",
+                order='old_sort' if order else 'sorted')
     name_differs = False
     try:
         name_differs = bytes.fromhex(decoded['stream_name']).decode() != name
@@ -397,6 +438,93 @@ def inspect_published(env, bad):
     if extra:
         obs['extra_files'] = len(extra)
 
+    # ---- the other entry points that build or load descriptors -----------------------
+    if loaded is not None and not problems:
+        def listing():
+            return {fn: os.path.getsize(os.path.join(blob_dir, fn)) for fn in sorted(os.listdir(blob_dir))}
+
+        def loaded_equal(d, want_sd_hash):
+            return (d.key, d.stream_hash, d.sd_hash, d.stream_name, d.suggested_file_name,
+                    [b.as_dict() for b in d.blobs]) == \
+                   (loaded.key, loaded.stream_hash, want_sd_hash, loaded.stream_name, loaded.suggested_file_name,
+                    [b.as_dict() for b in loaded.blobs])
+
+        # 1. make_sd_blob once more in the same key order: same blob, nothing rewritten
+        before = listing()
+        obs['stage'] = 'make_sd_blob-again'
+        again = loop.run(desc.make_sd_blob(old_sort=old_sort))
+        again.close()
+        if again.blob_hash != sd_hash or listing() != before or _read(blob_dir, sd_hash) != sd_bytes:
+            bad('make-sd-blob-not-idempotent', 'a second make_sd_blob() gave another hash or changed the blob directory')
+        # 2. make_sd_blob in the other key order: a second sd blob, named by the SHA-384 of its own bytes, with
+        #    the same content; the loader accepts it and returns an equal descriptor under that hash
+        obs['stage'] = 'make_sd_blob-other-order'
+        other = loop.run(desc.make_sd_blob(old_sort=not old_sort))
+        other.close()
+        other_bytes = _read(blob_dir, other.blob_hash)
+        if other_bytes is None or sha384(other_bytes) != other.blob_hash:
+            bad('sd-hash', f'make_sd_blob(old_sort={not old_sort}) returned a hash that is not the SHA-384 of a blob on disk',
+                entry='make_sd_blob-other-order')
+        else:
+            try:
+                same = ref.parse_manifest(other_bytes) == decoded
+            except ref.Malformed:
+                same = False
+            if not same:
+                bad('sd-blob-content', f'the sd blob written by make_sd_blob(old_sort={not old_sort}) has other content',
+                    entry='make_sd_blob-other-order')
+            elif other_bytes != ref.serialize(decoded, not old_sort):
+                obs.setdefault('tallies_early', []).append('other_order_sd_blob_differs_from_reference_serialisation')
+            ob = BlobFile(loop, other.blob_hash, len(other_bytes), blob_directory=blob_dir)
+            obs['stage'] = 'load-other-order'
+            try:
+                l2 = loop.run(StreamDescriptor.from_stream_descriptor_blob(loop, blob_dir, ob))
+                if not loaded_equal(l2, other.blob_hash):
+                    bad('loaded-descriptor-differs', 'descriptor loaded from the other-order sd blob differs',
+                        entry='make_sd_blob-other-order')
+            except Exception as e:   # noqa
+                bad('valid-descriptor-refused', f'loader refused the other-order sd blob: {type(e).__name__}',
+                    exc=type(e).__name__, entry='make_sd_blob-other-order')
+            finally:
+                ob.close()
+        # 3. recover(): the sd blob is gone, the stream fields come from elsewhere (the database in production)
+        infos_db = [BlobInfo(b['blob_num'], b['length'], b['iv'], 0, b.get('blob_hash')) for b in blobs]
+        for label, key_arg, expect in (('consistent', decoded['key'], True),
+                                       ('other-key', decoded['key'][:-1] + ('0' if decoded['key'][-1] != '0' else '1'), False)):
+            os.remove(os.path.join(blob_dir, sd_hash))
+            obs['stage'] = 'recover'
+            rb = BlobFile(loop, sd_hash, None, blob_directory=blob_dir)
+            try:
+                # recover() announces the sd blob's length with set_length(), which is bounded by MAX_BLOB_SIZE: the
+                # (unscaled) sd blob is larger than a scaled constant, so this one call runs under the real one
+                with blob_size(TWO_MIB):
+                    rec = loop.run(StreamDescriptor.recover(blob_dir, rb, decoded['stream_hash'], loaded.stream_name,
+                                                            loaded.suggested_file_name, key_arg, infos_db))
+            finally:
+                rb.close()
+            now = _read(blob_dir, sd_hash)
+            if expect:
+                if rec is None or now != sd_bytes:
+                    bad('recover-failed', 'recover() with the published fields did not restore the sd blob byte for byte',
+                        entry='recover')
+                elif not loaded_equal(rec, sd_hash):
+                    bad('loaded-descriptor-differs', 'descriptor returned by recover() differs', entry='recover')
+            else:
+                if rec is not None or (now is not None and sha384(now) != sd_hash):
+                    bad('recover-accepts-inconsistent', 'recover() with a different key returned a descriptor or wrote a '
+                                                        'blob that its name does not commit to', entry='recover')
+                if now is None:
+                    with open(os.path.join(blob_dir, sd_hash), 'wb') as f:
+                        f.write(sd_bytes)
+        obs['entry_points'] = True
+        obs.pop('stage', None)
+        if use_cb:
+            obs['callbacks'] = len(completed)
+            if any(not (v and f) for _, v, f in completed):
+                obs.setdefault('tallies_early', []).append('completion_callback_saw_unverified_or_missing_blob')
+            if sorted(h for h, _, _ in completed) != sorted(set(on_disk)):
+                obs.setdefault('tallies_early', []).append('completion_callbacks_are_not_one_per_written_blob')
+
     # ---- suggested file name of the published / loaded stream -----------------------
     for label, s in (('descriptor', desc.suggested_file_name),
                      ('loaded', loaded.suggested_file_name if loaded is not None else desc.suggested_file_name)):
@@ -416,7 +544,7 @@ def inspect_published(env, bad):
         obs['suggested'] = s
 
     # ---- interpretation-only comparisons with the reference publisher ---------------
-    t = []
+    t = list(obs.pop('tallies_early', []))
     if name_differs:
         t.append('stream_name_is_not_the_published_file_name')
     if key is not None and decoded['key'] != key.hex():
@@ -429,12 +557,20 @@ def inspect_published(env, bad):
         try:
             m, _ = ref.publish(data, name, bytes.fromhex(decoded['suggested_file_name']).decode(), key_bytes,
                                [bytes.fromhex(b['iv']) for b in blobs], bound)
-            if ref.serialize_manifest(m) != sd_bytes:
+            if ref.serialize(m, old_sort) != sd_bytes:
                 t.append('sd_blob_differs_from_reference_serialisation')
         except (ValueError, StopIteration):
             t.append('reference_publisher_failed')
     obs['tallies'] = t
     return problems, obs
+
+
+def _read(blob_dir, name):
+    try:
+        with open(os.path.join(blob_dir, name), 'rb') as f:
+            return f.read()
+    except (OSError, TypeError):
+        return None
 
 
 def account_publish(case, problems, obs, res):
@@ -457,7 +593,16 @@ def account_publish(case, problems, obs, res):
     n = obs.get('nblobs', 0)
     last = (case['size'] - 1) % (bound - 1) + 1
     res.distinct_add('nontrivial', ('a', case['M'], n, last % 16, last == bound - 1, case['pattern'], case['gen'],
-                                   case['name'] if case['name'] != 'f.bin' else ''))
+                                   case['name'] if case['name'] != 'f.bin' else '', bool(case.get('old_sort')),
+                                   bool(case.get('cb'))))
+    if case.get('old_sort'):
+        res.count('a_old_sort_publishes')
+        res.witness('old_sort_publish')
+    if obs.get('entry_points'):
+        res.count('a_entry_point_drives')
+        res.witness('make_sd_blob_twice_other_order_and_recover_driven')
+    if obs.get('callbacks'):
+        res.witness('blob_completed_callback_called')
     res.setmax('a_max_data_blobs', n)
     if lengths and max(lengths) == bound:
         res.witness('blob_of_exactly_max_size' + ('_real_2MiB' if case['M'] is None else '_scaled'))
@@ -471,18 +616,22 @@ def account_publish(case, problems, obs, res):
         res.witness('one_byte_more_than_full_blobs')
     if case['gen'] == 'zero' and n >= 2 and case['pattern'] in ('zero', 'ff', 'chunk-periodic'):
         res.witness('identical_chunks_under_identical_iv_published')
-    if case['gen'] == 'default':
+    if case['gen'].startswith('default'):
         res.witness('default_key_iv_path')
+    if case['gen'] in ('default-key', 'default-iv'):
+        res.witness('generated_key_only_or_generated_ivs_only_path')
 
 
 def work_publish(item, res):
     from vf.bootstrap import scratch_dir
-    _, M, pattern, gen, sizes, name, seed = item
+    _, M, pattern, gen, sizes, name, seed = item[:7]
+    opts = item[7] if len(item) > 7 else {}
     scratch = scratch_dir('c02')
     try:
         first = None
         for size in sizes:
             case = {'M': M, 'size': size, 'pattern': pattern, 'gen': gen, 'name': name, 'seed': seed}
+            case.update({k: True for k, v in opts.items() if v})
             problems, obs = publish_case(case, scratch)
             account_publish(case, problems, obs, res)
             if first is None:
@@ -495,7 +644,8 @@ def work_publish(item, res):
             if (sorted(json.dumps(s, sort_keys=True) for s, _ in p2), o2.get('sd_hash'), o2.get('lengths')) != \
                     (sorted(json.dumps(s, sort_keys=True) for s, _ in problems), obs.get('sd_hash'), obs.get('lengths')):
                 raise RuntimeError(f'non-deterministic execution for {case}')
-        if first is not None and (pattern, gen) == ('counter', 'counter') and (M is None or sizes[-1] == 3 * (M - 1) + 2):
+        if first is not None and (pattern, gen) == ('counter', 'counter') and not opts.get('cb') and \
+                (M is None or sizes[-1] == 3 * (M - 1) + 2):
             c, _, o = lastc
             res.sample({'part': 'a', 'case': c, 'blob_lengths': o.get('lengths'), 'sd_hash': o.get('sd_hash')})
     finally:
@@ -511,6 +661,8 @@ def work_publish_names(item, res):
         for name in names:
             for size in sizes:
                 case = {'M': SCALED_M, 'size': size, 'pattern': 'counter', 'gen': 'counter', 'name': name, 'seed': seed}
+                if size == sizes[-1]:
+                    case['old_sort'] = True
                 problems, obs = publish_case(case, scratch)
                 account_publish(case, problems, obs, res)
                 res.count('a_hostile_name_publishes')
@@ -527,7 +679,7 @@ BASE_SIZES = {1: 10, 2: 70, 3: 150, 4: 200}        # file sizes that give 1..4 d
 BASE_NAME = 'tamper me.bin'
 
 
-def make_base(nblobs, seed=0):
+def make_base(nblobs, seed=0, old_sort=False):
     """A valid descriptor with `nblobs` data blobs, built by the *reference* publisher (so that part (b)
     judges the loader alone, whatever the real publisher does); -> sd blob bytes."""
     from refs import stream_ref as ref
@@ -535,13 +687,13 @@ def make_base(nblobs, seed=0):
     m, _ = ref.publish(content('counter', BASE_SIZES[nblobs]), BASE_NAME, BASE_NAME, key, ivgen, SCALED_M)
     if len(m['blobs']) != nblobs + 1:
         raise RuntimeError('base descriptor does not have the intended number of blobs')
-    sd = ref.serialize_manifest(m)
+    sd = ref.serialize(m, old_sort)
     if ref.inconsistencies(sd, lenient=False):
         raise RuntimeError('reference publisher produced an inconsistent descriptor')
     return sd
 
 
-def real_base(nblobs, scratch, seed=0):
+def real_base(nblobs, scratch, seed=0, old_sort=False):
     """The same stream published by the real code; -> sd blob bytes or None (compared with make_base)."""
     from vf.vloop import VLoop
     from lbry.stream.descriptor import StreamDescriptor
@@ -555,18 +707,21 @@ def real_base(nblobs, scratch, seed=0):
     try:
         with blob_size(SCALED_M):
             desc = loop.run(StreamDescriptor.create_stream(loop, os.path.join(work, 'blobs'), fp, key=key,
-                                                           iv_generator=ivgen))
+                                                           iv_generator=ivgen, old_sort=old_sort))
         with open(os.path.join(work, 'blobs', desc.sd_hash), 'rb') as f:
             return f.read()
-    except Exception:   # noqa - part (a) reports publisher failures; here it is only a comparison
+    except (Exception, TypeError):   # noqa - part (a) reports publisher failures; here it is only a comparison
         return None
     finally:
         loop.shutdown()
         shutil.rmtree(work, ignore_errors=True)
 
 
+SORT_KEYS = True      # False while tampering a descriptor in the historical key order (document order is kept)
+
+
 def dumps(d):
-    return json.dumps(d, sort_keys=True).encode()
+    return json.dumps(d, sort_keys=SORT_KEYS).encode()
 
 
 def clone(d):
@@ -867,7 +1022,7 @@ def account_tamper(nblobs, t, reasons, outcome, res):
     if reasons:
         res.count('b_demanded_refusals')
         res.distinct_add('nontrivial', ('b', nblobs, t['op'], t['field'], str(t['blob']), t['recomputed'],
-                                       reason_class(reasons[0]), outcome))
+                                       reason_class(reasons[0]), outcome, SORT_KEYS))
         res.tally(f'refusal_by:{outcome}' if refused else 'ACCEPTED')
         if t['recomputed'] and refused:
             res.witness('structural_tampering_with_recomputed_stream_hash_refused')
@@ -886,12 +1041,19 @@ def account_tamper(nblobs, t, reasons, outcome, res):
 def work_tamper(item, res):
     from vf.vloop import VLoop
     from vf.bootstrap import scratch_dir
-    _, nblobs, family, arg, seed = item
+    global SORT_KEYS
+    _, nblobs, family, arg, seed = item[:5]
+    old_sort = bool(item[5]) if len(item) > 5 else False
     scratch = scratch_dir('c02')
+    SORT_KEYS = not old_sort
     try:
-        sd = make_base(nblobs, seed)
+        sd = make_base(nblobs, seed, old_sort)
         base = json.loads(sd)
-        same_as_real = real_base(nblobs, scratch, seed) == sd
+        if dumps(base) != sd:
+            raise RuntimeError('re-serialising the untampered base does not reproduce it')
+        if old_sort:
+            res.witness('tamperings_of_an_old_sort_descriptor')
+        same_as_real = real_base(nblobs, scratch, seed, old_sort) == sd
         if same_as_real:
             res.witness('reference_built_descriptor_equals_real_publisher_output')
         else:
@@ -938,6 +1100,7 @@ def work_tamper(item, res):
         finally:
             loop.shutdown()
     finally:
+        SORT_KEYS = True
         shutil.rmtree(scratch, ignore_errors=True)
 
 
@@ -1060,7 +1223,7 @@ def minimise(res):
             if case['M'] is None:
                 continue
             found = False
-            variants = [(p, g) for p in PATTERNS + EXTRA_PATTERNS for g in GENS + ('default',)] \
+            variants = [(p, g) for p in PATTERNS + EXTRA_PATTERNS for g in GENS + DEFAULT_GENS] \
                 if case['name'] == 'f.bin' else [(case['pattern'], case['gen'])]
             for m in sorted({16, case['M']}):
                 for size in range(1, (case['size'] if m == case['M'] else 4 * (m - 1) + 2) + 1):
@@ -1093,19 +1256,33 @@ def run(ctx):
     scaled = [16, SCALED_M] if quick else [16, 32, 48, SCALED_M, 80, 96, 112, 128]
     patterns = PATTERNS if quick else PATTERNS + EXTRA_PATTERNS
     blobs_span = 3 if quick else 4
+    OLD, CB, BOTH = {'old_sort': True}, {'cb': True}, {'old_sort': True, 'cb': True}
+    # documented options of create_stream: old_sort x blob_completed_callback.  Full product with old_sort
+    # everywhere; the callback is a full factor in thorough and a one-factor sweep (all sizes) in quick.
+    full_opts = [{}, OLD] if quick else [{}, OLD, CB, BOTH]
     items = []
     for m in scaled:
         top = blobs_span * (m - 1) + 2
-        for pattern in patterns:
-            for gen in GENS:
-                for part in chunks(range(1, top + 1), 48):
-                    items.append(('publish', m, pattern, gen, part, 'f.bin', seed))
-        for part in chunks(range(1, top + 1), 48):
-            items.append(('publish', m, 'counter', 'default', part, 'f.bin', seed))
+        parts = chunks(range(1, top + 1), 48)
+        for opts in full_opts:
+            for pattern in patterns:
+                for gen in GENS:
+                    items += [('publish', m, pattern, gen, part, 'f.bin', seed, opts) for part in parts]
+        for opts in ([{}, OLD, CB, BOTH]):
+            for gen in DEFAULT_GENS + (('counter',) if quick and opts.get('cb') else ()):
+                if quick and opts.get('cb') and gen != 'counter' and m != SCALED_M:
+                    continue
+                items += [('publish', m, 'counter', gen, part, 'f.bin', seed, opts) for part in parts]
     real_sizes = [1, M - 1, M, 2 * (M - 1) + 1] if quick else \
         [1, 15, 16, 17, M - 2, M - 1, M, M + 1, 2 * (M - 1), 2 * (M - 1) + 1, 3 * (M - 1), 3 * (M - 1) + 1]
-    real_items = [('publish', None, pattern, gen, [size], 'f.bin', seed)
-                  for size in real_sizes for pattern in patterns for gen in GENS + (('default',) if not quick else ())]
+    real_items = [('publish', None, pattern, gen, [size], 'f.bin', seed, {})
+                  for size in real_sizes for pattern in patterns for gen in GENS + (DEFAULT_GENS if not quick else ())]
+    # the real constant with the options: old_sort for every size and pattern under counter IVs (thorough: every
+    # generator), callback + both at every size for the counter pattern
+    real_items += [('publish', None, pattern, gen, [size], 'f.bin', seed, OLD)
+                   for size in real_sizes for pattern in patterns for gen in (('counter',) if quick else GENS)]
+    real_items += [('publish', None, 'counter', 'counter', [size], 'f.bin', seed, opts)
+                   for size in real_sizes for opts in (CB, BOTH)]
     ctx.pmap(work_publish, items)
     ctx.pmap(work_publish, real_items)
     name_sizes = [1, SCALED_M - 1, SCALED_M]
@@ -1113,12 +1290,17 @@ def run(ctx):
 
     # ---- (b) ------------------------------------------------------------------------------
     descs = [1, 2, 3] if quick else [1, 2, 3, 4]
+    old_descs = [2] if quick else [1, 2, 3]          # the same tamperings on descriptors in the historical key order
+    families = ('ints', 'fields', 'structure', 'truncate', 'badbyte', 'bitflip', 'docs')
     titems = []
     for nb in descs:
         nfields = 4 + 2 * nb + 1
-        titems += [('tamper', nb, 'chars', (i, not quick), seed) for i in range(nfields)]
-        titems += [('tamper', nb, fam, None, seed) for fam in ('ints', 'fields', 'structure', 'truncate', 'badbyte',
-                                                               'bitflip', 'docs')]
+        titems += [('tamper', nb, 'chars', (i, not quick), seed, False) for i in range(nfields)]
+        titems += [('tamper', nb, fam, None, seed, False) for fam in families]
+    for nb in old_descs:
+        nfields = 4 + 2 * nb + 1
+        titems += [('tamper', nb, 'chars', (i, False), seed, True) for i in range(nfields)]
+        titems += [('tamper', nb, fam, None, seed, True) for fam in families]
     ctx.pmap(work_tamper, titems)
 
     # ---- (c) ------------------------------------------------------------------------------
@@ -1129,7 +1311,12 @@ def run(ctx):
     minimise(ctx.res)
 
     ctx.meta.update(
-        rule=('(a) every (M, file size, content pattern, key/IV generator): M in the scaled set with every size '
+        rule=('(a) every (M, file size, content pattern, key/IV generator, old_sort in {False, True}) - plus '
+              'blob_completed_callback set/unset as a full factor (thorough) or an all-sizes sweep (quick) and the '
+              'generated-key / generated-IV paths (key=None and/or iv_generator=None) as all-sizes sweeps under all four '
+              'option combinations; every execution that publishes cleanly also drives make_sd_blob a second time, '
+              'make_sd_blob in the other key order + load of that blob, recover() with the published fields and '
+              'recover() with another key: M in the scaled set with every size '
               '1..3(M-1)+2 (thorough: 1..4(M-1)+2), patterns zero/counter/0xff (thorough: + chunk-periodic, SHA-256 '
               'stream), generators '
               'all-zero key+IVs / fixed key+counter IVs / SHA-256 stream / default os.urandom seam (counter pattern '
@@ -1143,7 +1330,7 @@ def run(ctx):
               'edits, zero-length data blobs - each with the original and with a reference-recomputed stream_hash; '
               'truncation at every byte; 0xff/0x80/0x00 at every byte; every single-bit flip; prefix/suffix garbage; '
               'non-object documents} of a valid reference-built descriptor with D data blobs (identical to the real '
-              'publisher\'s output).  (c) every string of length <= L over '
+              'publisher\'s output), in the sorted key order and (D in old_sort set) in the historical key order.  (c) every string of length <= L over '
               'the 12-symbol hostile alphabet, reserved DOS names x 3 casings x 24 decorations, and a list of '
               'special names, through three naming paths.  Distinct non-trivial = (a) distinct (M, data blob count, '
               'last chunk length mod 16, last chunk full, pattern, generator, name) classes; (b) distinct (D, operator, '
@@ -1151,7 +1338,8 @@ def run(ctx):
               'inconsistent; (c) distinct character-class shapes of names containing at least one non-letter.'),
         exhaustive=True,
         bounds={'scaled_MAX_BLOB_SIZE': scaled, 'real_MAX_BLOB_SIZE_sizes': real_sizes,
-                'tampered_descriptors_data_blobs': descs, 'name_max_len': L, 'name_alphabet': len(NAME_ALPHABET),
+                'tampered_descriptors_data_blobs': descs, 'tampered_old_sort_descriptors_data_blobs': old_descs,
+                'create_stream_options_full_product': [sorted(o) for o in full_opts], 'name_max_len': L, 'name_alphabet': len(NAME_ALPHABET),
                 'max_blob_size_namespaces_patched': names},
         assumptions=[
             'reference = refs/stream_ref.py, written from the published stream format and validated against NIST '
@@ -1168,12 +1356,20 @@ def run(ctx):
             'file names that cannot exist on POSIX (containing "/" or NUL) reach the naming paths directly, not '
             'through create_stream; non-UTF-8 on-disk names are outside the alphabet',
             'time.time() (added_on) is not part of any committed content and is left alone',
+            'recover() runs under the real MAX_BLOB_SIZE even in scaled executions: it announces the sd blob length '
+            'through set_length(), and an sd blob (which is not scaled) is larger than a scaled constant',
+            'create_stream has no file_name / stream_name override parameters (loop, blob_dir, file_path, key, '
+            'iv_generator, old_sort, blob_completed_callback are all it documents); names vary through the file path',
+            'blob_completed_callback: the ordinary oracle must hold with it set; what the callback saw is tallied only',
         ],
         expected_witnesses=['blob_of_exactly_max_size_scaled', 'blob_of_exactly_max_size_real_2MiB', 'multi_blob_stream',
                             'three_or_more_data_blobs', 'one_byte_more_than_full_blobs', 'default_key_iv_path',
                             'untampered_descriptor_accepted', 'reference_built_descriptor_equals_real_publisher_output',
                             'structural_tampering_with_recomputed_stream_hash_refused',
-                            'published_name_was_changed_by_sanitising', 'separators_and_controls_are_removed_not_kept'],
+                            'published_name_was_changed_by_sanitising', 'separators_and_controls_are_removed_not_kept',
+                            'old_sort_publish', 'make_sd_blob_twice_other_order_and_recover_driven',
+                            'blob_completed_callback_called', 'generated_key_only_or_generated_ivs_only_path',
+                            'tamperings_of_an_old_sort_descriptor'],
     )
 
 
